@@ -61,7 +61,7 @@ let run () =
         | ["clear"] -> Some VClear
         | ["reverse"] -> Some VReverse
         | ["toarray"] -> Some VToArray
-        | ["walk"; s; n] -> Some (VWalk (zi s, nat_of_int (int_of_string n)))
+        | [("walk" | "walkip" | "walkmix"); s; n] -> Some (VWalk (zi s, nat_of_int (int_of_string n)))   (* in-place and copying steps hand out the same bytes *)
         | _ -> None in
       match o, !st with
       | None, _ -> print_endline ("M ?? " ^ line); print_endline "S ??"
